@@ -61,6 +61,17 @@ def register(R):
         R.contract(q + ".drift_states@getter", tags=("C12",), params={},
                    ensures=["forall(i, 0, %s, value_at(result, key(%s, i)) == member(%s, i).drift_state)" % (N, D, D),
                             "nmembers(result) == " + N, "unchanged(self)"], modifies=[])
+        # retraining_recs: exactly the members that have the attribute, each with its own current value, nothing else
+        RECS_A = "forall(j, 0, %s, khas(%s, key(%s, j)) == has_recs(member(%s, j)))"
+        RECS_B = "forall(j, 0, %s, implies(has_recs(member(%s, j)), kval(%s, key(%s, j)) == recs_of(member(%s, j))))"
+        R.contract(q + ".retraining_recs@getter", tags=("C12",), params={}, requires=[DISTINCT],
+                   ensures=[RECS_A % (N, "result", D, D), RECS_B % (N, D, "result", D, D), "kexact(result, %s, %s)" % (D, N),
+                            "unchanged(self)", "forall(i, 0, %s, mstate(member(%s, i)) == old(mstate(member(%s, i))))" % (N, D, D)],
+                   modifies=[],
+                   loops={0: {"index": "k", "havoc_locals": ["ret", "detector_id", "detector"], "types": {"ret": "KeyMap[Recs]"},
+                              "invariant": [RECS_A % ("k", "ret", D, D), RECS_B % ("k", D, "ret", D, D),
+                                            "forall(j, k, %s, not khas(ret, key(%s, j)))" % (N, D),
+                                            "kexact(ret, %s, k)" % D, "unchanged(self)"]}})
     R.contract(M + ":BatchEnsemble.set_reference", tags=("C12",), params={"X": "Arg", "y_true": "Arg", "y_pred": "Arg"},
                requires=[DISTINCT], ensures=[REFSET, "unchanged(self)"], modifies=[],
                loops={0: loop_inv("setref")})
